@@ -321,6 +321,24 @@ def leaves3():
 
 # ------------------------------------------------------------------------------ wrappers
 
+def normalises(t):
+    """the region content the term re-emits differs from what it read (it strips something): a stripping or unit-framing
+    wrapper directly above such a term sees content outside its own canonical forms (documented limits of NullStripped
+    and of multi-byte terminators, not defects)"""
+    k = t[0]
+    if k == "NullStripped":
+        return True
+    if k in ("Hex", "HexDump", "RawCopy", "Rebuild", "Default", "OneOf", "NoneOf", "BitsSwapped", "Optional"):
+        return normalises(t[1])
+    if k == "ProcessXor":
+        return normalises(t[2])
+    if k == "ProcessRotateLeft":
+        return normalises(t[3])
+    if k in ("If",):
+        return normalises(t[2])
+    return False
+
+
 def fills(t):
     """always consumes its whole region (a GreedyRange stops at the first failing element and ignores the rest, so it does not)"""
     k = t[0]
@@ -379,7 +397,7 @@ def wrappers(x, strict=True, small=False):
     if not small:
         nts += [(b"\x00", True, False, True), (b"\x00\x00", True, True, False), (b"\x00\x00", False, False, True), (b"\x01", False, True, True)]
     for term, inc, cons, req in nts:
-        if strict and (not fills(x) or inc or not req):
+        if strict and (not fills(x) or inc or not req or (len(term) > 1 and normalises(x))):
             # strict = compositions whose byte/value round trip is representable: the child must fill the region (a fixed-size
             # child may itself encode the terminator), include=True is parse-only by documentation ("building builds the
             # subcon and then writes the term", so the terminator is written twice) and require=False accepts unterminated input
@@ -390,6 +408,8 @@ def wrappers(x, strict=True, small=False):
         for pad in (b"\x00", b"\x00\x00", b"\x00\x01"):
             if strict and len(pad) > 1 and not (pad == b"\x00\x00" and x[0] == "GreedyString" and R.unit_of(x[1]) == 2):
                 continue    # multi-byte pads are for data made of whole units (their use in PaddedString); see DESIGN 2.1
+            if strict and normalises(x) and not (x[0] == "NullStripped" and x[2] == pad):
+                continue    # the child's canonical forms are not closed under this stripping (e.g. Xor in between)
             out.append(["NullStripped", x, pad])
         out.append(["ProcessXor", 0x20, x])
         if not small:
@@ -487,7 +507,9 @@ def wrappers12(x, strict=True):
     if not (strict and a.seeks):
         out.append(["RawCopy", x])
     if not strict or fills(x):
-        out += [["NullTerminated", x, b"\x00", False, True, True], ["NullStripped", x, b"\x00"], ["ProcessXor", 0x20, x]]
+        out += [["NullTerminated", x, b"\x00", False, True, True], ["ProcessXor", 0x20, x]]
+        if not strict or not normalises(x) or x[0] == "NullStripped":
+            out.append(["NullStripped", x, b"\x00"])
     if not greedy:
         if sizable:
             out += [["Padded", 4, x, b"\x00"], ["Aligned", 2, x, b"\xff"]]
